@@ -1,4 +1,5 @@
 HARNESS = "c03"
+STALE_RERUN = True   # operands also re-run as stale external polynomials (see check)
 LEVEL = "proof"
 """C03 case generator: gcd / lcm / content / primitive part / extended gcd / Bezout.
 Every random choice comes from the one `rng` passed in.  Case grammar: see harness/c03.c."""
